@@ -6,6 +6,7 @@ import (
 	"bufio"
 	"fmt"
 	"go/constant"
+	"go/token"
 	"go/types"
 	"os"
 	"path/filepath"
@@ -45,6 +46,10 @@ type Contract struct {
 	ghostSet  []ghostAssign
 	ghostExit []ghostAssign
 	allocGlobs []string
+	selects    []string // channels the function must receive from in a select
+	blockExt   []string // external blocking calls the function is allowed to make (with their wake-up mechanism)
+	blocksCancellable bool
+	blocksNever       bool
 }
 
 func (c *Contract) allocatesRegion(r string) bool {
@@ -119,6 +124,7 @@ type World struct {
 	lockInvs      []*lockInv
 	chanElems     []types.Type
 	guardedMaps   []*types.Map
+	blockMemo     map[*ssa.Function]int
 }
 
 func loadWorld(repo string) (*World, error) {
@@ -563,7 +569,23 @@ func (w *World) loadContracts(file, pkgPath string) error {
 		case "atomic":
 			cur.atomic = rest
 		case "blocks":
+			// blocks cancellable [external <callee>: <wake-up mechanism>; ...]
 			cur.blocks = rest
+			cur.blocksCancellable = strings.HasPrefix(rest, "cancellable")
+			cur.blocksNever = strings.HasPrefix(rest, "never")
+			if i := strings.Index(rest, "external"); i >= 0 {
+				for _, e := range strings.Split(rest[i+len("external"):], ";") {
+					if e = strings.TrimSpace(e); e != "" {
+						cur.blockExt = append(cur.blockExt, e)
+					}
+				}
+			}
+		case "selects":
+			for _, x := range strings.Split(rest, ",") {
+				if x = strings.TrimSpace(x); x != "" {
+					cur.selects = append(cur.selects, x)
+				}
+			}
 		case "ghost_exit":
 			// ghost_exit g_name := expr      (executed at every exit of the function, before the postconditions; may mention result)
 			j := strings.Index(rest, ":=")
@@ -774,4 +796,62 @@ func (w *World) guardedMapTypes() []*types.Map {
 		w.guardedMaps = []*types.Map{}
 	}
 	return w.guardedMaps
+}
+
+// mayBlock: can fn (transitively through static calls inside the module) execute a potentially blocking
+// channel operation or one of the known blocking external calls?
+func (w *World) mayBlock(fn *ssa.Function) bool {
+	if w.blockMemo == nil {
+		w.blockMemo = map[*ssa.Function]int{}
+	}
+	switch w.blockMemo[fn] {
+	case 1:
+		return false
+	case 2:
+		return true
+	case 3:
+		return false // recursion: assume no
+	}
+	w.blockMemo[fn] = 3
+	res := false
+	for _, b := range fn.Blocks {
+		for _, in := range b.Instrs {
+			switch x := in.(type) {
+			case *ssa.Send:
+				res = true
+			case *ssa.Select:
+				if x.Blocking {
+					res = true
+				}
+			case *ssa.UnOp:
+				if x.Op == token.ARROW {
+					res = true
+				}
+			case *ssa.Call:
+				if sc := x.Common().StaticCallee(); sc == nil && !x.Common().IsInvoke() {
+					if _, isBuiltin := x.Common().Value.(*ssa.Builtin); !isBuiltin {
+						res = true // call through a function value: the callee is unknown here
+					}
+				} else if sc != nil {
+					switch sc.String() {
+					case "os.OpenFile", "(*bufio.Reader).ReadString", "(*sync.WaitGroup).Wait", "time.Sleep":
+						res = true
+					default:
+						if strings.HasPrefix(fnPkgPath(sc), modulePath) && sc.Blocks != nil && w.mayBlock(sc) {
+							res = true
+						}
+					}
+				}
+			}
+		}
+	}
+	for _, anon := range fn.AnonFuncs {
+		_ = anon
+	}
+	if res {
+		w.blockMemo[fn] = 2
+	} else {
+		w.blockMemo[fn] = 1
+	}
+	return res
 }
